@@ -506,7 +506,7 @@ impl Property for C12 {
         "C12"
     }
     fn rule(&self) -> String {
-        "every shape the C01-C05 generators produce (attributes, spreads, repeated names, on objects, directives, v-html/v-text, v-model(s), v-slots, nested component trees, all hosts) under every setting of the other options; each module is transformed twice, optimize=true and optimize=false, both outputs are evaluated in node against the same env (slots invoked, v-model listeners fired) and their canonical export values compared with patchFlag / dynamicProps / `_` erased. non-trivial = the two printed outputs differ (the flag did something); distinct by hash(source, options, env)".into()
+        "every shape the C01-C05 generators produce (attributes, spreads, repeated names, on objects, directives, v-html/v-text, v-model(s), v-slots, nested component trees, all hosts) under every setting of the other options; each module is transformed twice, optimize=true and optimize=false, both outputs are evaluated in node against the same env (slots invoked, v-model listeners fired) and their canonical export values compared with patchFlag / dynamicProps / `_` erased; additionally the two raw output ASTs are compared in lock step and may differ only by a numeric 4th / string-list 5th argument of a 3-argument call and by a trailing `_: <number>` property of an object literal; every fifth case also contains a variable reassigned to a component that uses it as its sole child (capture path). non-trivial = the two printed outputs differ (the flag did something); distinct by hash(source, options, env)".into()
     }
     fn assumptions(&self) -> Vec<String> {
         vec!["hints = arguments 4-5 of vnode calls and the `_` key of slot objects (erased by the canoniser)".into()]
@@ -579,6 +579,21 @@ impl Property for C12 {
         }
         if a.code == b.code {
             return Verdict::Discard("optimize-had-no-effect".into());
+        }
+        // structural: the two output ASTs differ only at hint positions
+        {
+            use crate::driver::{module_json, with_transform, Lang};
+            let lang = Lang::from_str(&case.lang);
+            let ja = with_transform(&case.source, lang, case.options.as_deref(), |t| t.raw.as_ref().map(module_json));
+            let jb = with_transform(&off_case.source, lang, off_case.options.as_deref(), |t| t.raw.as_ref().map(module_json));
+            if let (Ok(Some(ja)), Ok(Some(jb))) = (ja, jb) {
+                if let Err(e) = crate::astcmp::only_hints_differ(&ja["body"], &jb["body"], "$body") {
+                    return Verdict::Violation {
+                        kind: "outputs-differ-outside-hint-positions".into(),
+                        detail: json!({"where": e, "optimize_true": a.code, "optimize_false": b.code}),
+                    };
+                }
+            }
         }
         let results = match crate::props::semantic::node_eval(
             ctx,
